@@ -12,7 +12,7 @@ RULE = ("Hypothesis-generated Fortran-subset programs biased to user-type memory
         "moves a <- b, overwrites of live values, self-updates, temporaries whose last use is guarded, sits in a yield or "
         "precedes a conditional fail/switch/restart, yields of temporaries and of state, 1-3 phases) are emitted, compiled "
         "with gfortran -fsanitize=address,undefined -fcheck=pointer,bounds together with a driver that calls run() 2-6 "
-        "times and then shutdown(). Oracle: exit status 0, no AddressSanitizer / LeakSanitizer / UBSan report, no 'leaked "
+        "times and then shutdown(); a second generator produces methods over two user types of different Fortran structure (a structure with a pointer member and a plain array, either sorting first). Oracle: exit status 0, no AddressSanitizer / LeakSanitizer / UBSan report, no 'leaked "
         "reference' line from shutdown, no Fortran run-time error. Non-trivial = >= 1 user-type temporary and an early exit, "
         "a guard, or a move; distinct by canonical JSON of (program, state, number of run calls).")
 ASSUMPTIONS = ["values are not compared here (C03 does that)",
